@@ -268,8 +268,18 @@ def ansOfWrite (old : Option KV) : WriteRes → BAns
   | .notFound hdr => .resp false hdr none
   | .error e => .error e
 
-/-- the call on the sequential backend model -/
-def runCall (c : Cfg) (s : BState) : BCall → BAns × BState
+/-- `backend.Create` / `backend.Update` refuse a write without a value BEFORE a revision is dealt
+(pkg/backend/txn.go `errEmptyValue`, /repo f2a549c: every engine alike — TiKV cannot store an empty value,
+on the other engines a key holding it reads as absent in point reads while range reads list it). -/
+def BCall.emptyValue : BCall → Bool
+  | .create _ val _ => val.isEmpty
+  | .update _ val _ _ => val.isEmpty
+  | .delete _ _ => false
+
+/-- the call on the sequential backend model: refused without touching the state when it carries no value -/
+def runCall (c : Cfg) (s : BState) (call : BCall) : BAns × BState :=
+  if call.emptyValue then (.error .other, s) else
+  match call with
   | .create key val _ => let (r, s') := doCreate c s key val []; (ansOfWrite none r, s')
   | .delete key rev => let (r, s') := doDelete c s key rev []; (ansOfWrite (curKv c s key) r, s')
   | .update key val rev _ => let (r, s') := doUpdate c s key val rev []; (ansOfWrite none r, s')
@@ -345,16 +355,24 @@ def liftScan {α : Type} : ScanRes α → Except EErr α
   | .panic => .error .panic
 
 /-- `RPCServer.Range`: empty `range_end` ⇒ Get; else revision 1888 ⇒ partition listing; else
-`count_only` ⇒ Count; else List. Options not named here are not looked at. -/
+`count_only` ⇒ Count; else List. Options not named here are not looked at.
+`backendShim.Count` (/repo 5f2847c): a count at an explicit revision (`revision > 0`) is the size of the
+range read `backend.List` answers at THAT revision (no limit) — so it is refused below the compaction floor
+and with the bounds List refuses; only revision 0 goes to `backend.Count` (current revision, bounds unchecked). -/
 def shimRange (c : Cfg) (s : BState) (r : RangeReq) : Except EErr RangeResp :=
   if r.rangeEnd.isEmpty then
     let (hdr, kv) := doGet c s r.key (toU64 r.revision)
     .ok { hdr := hdr, kvs := kv.toList, count := if kv.isSome then 1 else 0, more := false }
   else if r.revision == getPartitionMagic then
-    let n := (partitions c.splits (encode r.key 0) (encode r.rangeEnd 0)).length
+    let n := (partitions c.splits (encodeBound r.key) (encodeBound r.rangeEnd)).length
     .ok { hdr := s.committed, kvs := (doPartitions c r.key r.rangeEnd).map (fun k => (k, [], 0)),
           count := n + 1, more := false }
   else if r.countOnly then
+    if r.revision > 0 then
+      match liftScan (doList c s r.key r.rangeEnd (toU64 r.revision) 0) with
+      | .ok res => .ok { hdr := res.hdr, kvs := [], count := res.kvs.length, more := false }
+      | .error e => .error e
+    else
     match liftScan (doCount c s r.key r.rangeEnd) with
     | .ok (hdr, n) => .ok { hdr := hdr, kvs := [], count := n, more := false }
     | .error e => .error e
@@ -381,5 +399,26 @@ def shimEvent (e : Event) : WEv :=
 
 /-- `isPureWatchRequest`: the key starts with "/" -/
 def isPureWatch (key : Bytes) : Bool := key.head? == some 47
+
+/-- What `watcher.Start` does with a watch-create request after the unconditional `created` answer
+(watch.go): a NEGATIVE start revision is the range-stream shape (`watcher.List`), anything else a watch. -/
+inductive WatchCreate where
+  /-- cancelled at once (`compact_revision = 1`), the backend is not called -/
+  | refused
+  /-- `backend.ListByStream(key, range_end, -start_revision)` -/
+  | rangeStream (key stop : Bytes) (rev : Nat)
+  /-- `backend.Watch(key, start_revision)` (a prefix watch) -/
+  | watch (pfx : Bytes) (rev : Nat)
+  deriving Repr, DecidableEq
+
+/-- `watcher.Start` → `List` / `Watch`: the range-stream shape needs BOTH borders (/repo 5b8c053: as the
+native RangeStream; before, an empty `range_end` was handed to `ListByStream`, and on a multi-region TiKV
+engine every partition was clipped to the empty end — a slice-bounds panic in a goroutine nothing recovers);
+a watch needs a key starting with "/". -/
+def watchCreate (key stop : Bytes) (startRev : Int) : WatchCreate :=
+  if startRev < 0 then
+    if key.isEmpty || stop.isEmpty then .refused else .rangeStream key stop (toU64 (-startRev))
+  else if !isPureWatch key then .refused
+  else .watch key (toU64 startRev)
 
 end KB.Etcd
